@@ -281,6 +281,43 @@ def gen_held(r, kind):
     return {"init": init, "steps": steps, "src": "held-push"}
 
 
+def gen_updater(r):
+    """The periodic updater's real path: governance creates sets, the REAL updateGuardianSet loop ticks (its fetch
+    GetGuardianSetsFromChain(current+1) is let through one tick at a time), with node failures of the index call or
+    of a set call inside the range; list projection after every tick, lookups in between and of every index at the
+    end.  Half of the scenarios also build the initial list the way main.go does (GetGuardianSetsFromChain(.., 0))."""
+    k = r.choice([4, 5, 6, 8])
+    chain = universe(r, k)
+    startup = r.random() < 0.5
+    top = r.randrange(0, 2)
+    n0 = top + 1 if startup else r.randrange(1, top + 2)
+    init = {"chain": chain, "n0": n0, "top": top, "qcap": 1, "up": True, "updater": True, "startup": startup}
+    steps = []
+    for _ in range(r.randrange(4, 10)):
+        x = r.random()
+        if x < 0.35 and top + 1 < k:
+            for _ in range(r.choice([1, 1, 2, 3])):
+                if top + 1 < k:
+                    steps.append({"ev": "Grow", "a": {}})
+                    top += 1
+        elif x < 0.75:
+            f = r.choice(["", "", "", "index", "set", "set"])
+            steps.append({"ev": "Tick", "a": {"fail": f, "nth": r.choice([1, 1, 2, 3])}})
+        elif x < 0.9:
+            steps.append({"ev": "Lookup", "a": {"i": r.randrange(0, top + 1)}})
+        else:
+            steps.append({"ev": "Current", "a": {}})
+    steps.append({"ev": "Tick", "a": {"fail": ""}})
+    steps.append({"ev": "Current", "a": {}})
+    steps += [{"ev": "Lookup", "a": {"i": i}} for i in range(top + 1)]
+    return {"init": init, "steps": steps, "src": "updater"}
+
+
+def updater_scenarios(seed_, n):
+    rnd = random.Random("explorer-updater-%d" % seed_)
+    return [gen_updater(rnd) for _ in range(n)]
+
+
 def held_scenarios(seed_, n, kind):
     rnd = random.Random("explorer-held-%s-%d" % (kind, seed_))
     return [gen_held(rnd, kind) for _ in range(n)]
@@ -368,7 +405,7 @@ def validate(work, lines):
 
     def unexplained():
         return set(t for t, bad in res.items() if bad is not None and bad.get("a", {}).get("res", {}).get("tag") != "panic"
-                   and "panic" not in bad.get("a", {}))
+                   and "panic" not in bad.get("a", {}) and bad["ev"] != "Panic")
     for cfg, name in (("Trace_Explorer_atomic.cfg", "level2"), ("Trace_Explorer_full.cfg", "level3")):
         redo = unexplained()
         if name == "level3":
@@ -416,10 +453,21 @@ def _validate(work, lines, cfg):
     return res, r
 
 
+def panic_signature(ln):
+    val = re.sub(r"\d+", "N", re.sub(r"0x[0-9a-f]+", "0x", ln["a"].get("value", "")))
+    return "panic/%s/%s" % (ln["a"].get("call"), re.sub(r"[^A-Za-z0-9]+", "-", val)[:60].strip("-"))
+
+
 def classify_reject(trace_lines, bad, scenario):
     """Signature of an unexplained line (the verdict is TLC's; this only names the class of the input)."""
     ev = bad["ev"]
     a = bad.get("a", {})
+    if ev == "Panic":
+        return panic_signature(bad)
+    if ev == "TickFailed":
+        return "reject/TickFailed/%s" % ("updater-fetch-failed-although-the-node-answered" if not a.get("node_failures") else "state-changed")
+    if ev == "AppendRet" and a.get("p") == "t" and "panic" not in a:
+        return "reject/TickRet/list-after-updater-tick-is-not-the-chain-prefix"
     top, up = None, False
     for ln in trace_lines:
         if ln is bad:
